@@ -85,6 +85,13 @@ macro_rules! api_program {
                     let w0c = w0.clone();
                     drop(w0);
                     log(format!("weaknewclone {}", w0c.upgrade().is_none()));
+                    // raw round trip of the dangling sentinel
+                    let wd1: Weak<V> = unsafe { Weak::from_raw(Weak::<V>::new().into_raw()) };
+                    log(format!("weaknew raw {} {} {} {} {}", wd1.upgrade().is_none(), wd1.strong_count(), wd1.weak_count(), wd1.ptr_eq(&Weak::new()), wd1.as_ptr() == Weak::<V>::new().as_ptr()));
+                    let wd2 = wd1.clone();
+                    drop(wd1);
+                    log(format!("weaknew raw clone {} {}", wd2.upgrade().is_none(), wd2.weak_count()));
+                    drop(wd2);
                     // Weak raw round trip
                     let wa = Rc::downgrade(&ra);
                     log(format!("weak asptr {} counts {} {}", wa.as_ptr() == Rc::as_ptr(&ra), Rc::strong_count(&ra), Rc::weak_count(&ra)));
